@@ -5,8 +5,8 @@
    instead of a logged draw stream.  Each is a run of the stream-driven model on the trace of
    draws it produces, hence every theorem of Properties_C17.v holds of seeded runs: for every
    seed, every previous engine content.  Integer draws need no contract any more (their range
-   is a theorem, Dist_C07.v), nor boolean draws (C17_seeded_boolean_never_refused); real draws over intervals of finite width are
-   proved inside [lo, hi] (C17_seeded_real_never_refused); only the wide-interval branch is still a checked contract.  Nothing else lives in this file. *)
+   is a theorem, Dist_C07.v), nor boolean draws (C17_seeded_boolean_never_refused); real draws are proved
+   inside [lo, hi] for every finite lo < hi (C17_seeded_real_never_refused): nothing of H_draws is assumed any more.  Nothing else lives in this file. *)
 From Coq Require Import ZArith List Bool.
 From VV Require Import Base.F64 Rng.RngDefs Rng.RngProofs Rng.DistDefs Ga.GaDefs Ga.GaProofs Ga.GaSeededDefs Ga.GaSeededProofs.
 Import ListNotations.
@@ -45,10 +45,10 @@ Theorem C17_seeded_boolean_never_refused : forall p st, wf st -> exists b st' tr
 Proof. exact e_bool_never_refuses. Qed.
 Print Assumptions C17_seeded_boolean_never_refused.
 
-(* nor the real draws over finite intervals of finite width: a seeded real draw is a finite double in [lo, hi]
-   (C07_between_real_in_interval) -- for such boxes the whole H_draws contract is now a theorem *)
+(* nor the real draws, for every finite lo < hi (C07_between_real_in_interval, both branches of between<double>):
+   in seeded runs the whole H_draws contract is a theorem *)
 Theorem C17_seeded_real_never_refused : forall lo hi st, wf st ->
-  F64.is_finite lo = true -> F64.is_finite hi = true -> F64.ltb lo hi = true -> F64.is_finite (F64.sub hi lo) = true ->
+  F64.is_finite lo = true -> F64.is_finite hi = true -> F64.ltb lo hi = true ->
   exists v st' tr, e_real lo hi st = Some (v, st', tr) /\ F64.leb lo v = true /\ F64.leb v hi = true /\ F64.is_finite v = true.
 Proof. exact e_real_never_refuses. Qed.
 Print Assumptions C17_seeded_real_never_refused.
